@@ -68,11 +68,15 @@ def harness(tier, seed):
     fes = 400 if tier == "quick" else 3000
     viol, evals, distinct, samples = [], 0, 0, []
     big = [128, 129, 257] if tier == "quick" else [127, 128, 129, 130, 255, 256, 257]
+    prev_n = 5
     for r in range(runs + len(big)):
         # the last runs: numbers of cities at the boundaries of the integer types a tour can be stored in
         n = rng.randint(4, 9) if r < runs else big[r - runs]
         if r in (1, 4):
             n = 2 if r == 1 else 3      # the smallest instances: no proper segment reversal exists, nothing may be registered wrongly
+        if r in (7, 10) and r < runs:
+            n = prev_n                  # two different instances of the same name and size directly after each other
+        prev_n = n
         mx = rng.choice([1, 3, 20, 1000, 10 ** 9, 5 * 10 ** 9, 10 ** 12] if r < runs else [3, 20, 1000])
         m = np.zeros((n, n), np.int64)
         for i in range(n):
